@@ -10,12 +10,14 @@ ID = "C11"
 GEN = ["water", "gas", "oil"]
 PROPS = ["C11_arrays.v"]
 DTYPES = [np.float64, np.float32, np.int64, np.int32]
+# unsigned pressure columns (pd.to_numeric(..., downcast="unsigned"), image / binary loaders) are integer arrays too
+UDTYPES = [np.uint32, np.uint64]
 
 
-def variants(base, rng):
+def variants(base, rng, dtypes=None):
     """contiguous / strided view / read-only / length 0 / length 1 versions of a pressure list"""
     out = []
-    for dt in DTYPES:
+    for dt in (dtypes or DTYPES):
         a = np.asarray(base).astype(dt)
         out.append(("contiguous", a.copy()))
         big = np.empty(2 * len(a), dtype=dt)
@@ -79,7 +81,7 @@ def run(ctx):
         # integer-valued pressures so that every dtype holds them exactly; pb itself (float) and its float neighbours
         ints = np.unique(np.round(np.concatenate([rng.uniform(15, pb, 4), rng.uniform(pb, 2.5 * pb, 4), [np.floor(pb), np.ceil(pb)]])))
         params = dict(T=T, api=api, gg=gg, Rsi=rsi, pb=pb)
-        for label, arr in variants(ints, rng):
+        for label, arr in variants(ints, rng, DTYPES + UDTYPES):
             compare("oil.b_o_Standing", lambda a: oil.b_o_Standing(T, a, api, gg, rsi), lambda x: oil.b_o_Standing(T, x, api, gg, rsi), arr, label, params)
             compare("oil.solution_gor_Standing", lambda a: oil.solution_gor_Standing(T, a, api, gg, rsi), lambda x: oil.solution_gor_Standing(T, x, api, gg, rsi), arr, label, params)
             above = arr[arr >= pb] if arr.size else arr
@@ -125,7 +127,7 @@ def run(ctx):
                    rule="for random oils: pressure arrays on both sides of p_b as float64/float32/int64/int32 x {contiguous, strided view, reversed view, "
                         "read-only, empty, length 1}, also with Python-int scalar parameters and integer pressures up to 20000 (integer products can wrap), plus float64 arrays containing p_b itself and its two float neighbours; every function of the "
                         "property's observe_at list; compared element by element with the scalar call (rtol 1e-12, 2e-5 for float32 input)",
-                   input_distribution={"dtypes": [str(np.dtype(d)) for d in DTYPES], "functions": sorted({k_[0] for k_ in kinds})})
+                   input_distribution={"dtypes": [str(np.dtype(d)) for d in DTYPES + UDTYPES], "functions": sorted({k_[0] for k_ in kinds})})
     ctx.validated_only.append("float32 rounding (cast to float32 is the identity in the model); behaviour exactly at p_b in floats")
     ctx.samples.append(dict(T=T, api=api, gg=gg, Rsi=rsi, pb=pb, pressures=[float(x) for x in ints]))
 
